@@ -176,7 +176,57 @@ theorem outer_le (c : LoopCtx) (bd : Nat) (h : outerLoop c (List.range maxBlockd
     bd ≤ maxBlockdep :=
   (outer_spec c _ _ _ (fun g hg => by have := List.mem_range.mp hg; omega) h).1
 
-/-! ## witness operations for the `padding.right` defect (used in `Props/C04.lean`) -/
+/-! ## the input volume of a forward job contains the receptive field of its OFM block -/
+
+theorem roundUp_ge (x u : Int) (hu : 0 < u) : x ≤ roundUp x u := by
+  unfold roundUp
+  have h1 := Int.emod_add_mul_ediv (x + u - 1) u
+  have h0 := Int.emod_nonneg (x + u - 1) (Int.ne_of_gt hu)
+  have h2 := Int.emod_lt_of_pos (x + u - 1) hu
+  have h3 : (x + u - 1) / u * u = u * ((x + u - 1) / u) := Int.mul_comm _ _
+  omega
+
+/-- With the y start taken from `padding.top`: the volume `get_first_job_input_volume` returns for the OFM block
+    at `oc` starts exactly where the receptive field of the block starts (clipped at 0) and ends at or after the
+    last row / column the block needs, `oc·stride + (block−1)·stride + dilated kernel − padding` (for kernels up to
+    the sub-kernel limit the function is called with); its depth range is the job's IFM depth slice. -/
+theorem firstJob_covers (a : AccRow) (ifmSize ofmSize : Blk3) (ibd : Int) (blk : Blk3) (k : Kernel) (p : Padding)
+    (f : Int) (ar : Area)
+    (h : getFirstJobInputVolume a ifmSize ofmSize ibd blk k p f = some (some ar))
+    (hkh : (k.height - 1) * k.dilationY + 1 ≤ a.ofmBlockMax.height)
+    (hkw : (k.width - 1) * k.dilationX + 1 ≤ a.ofmBlockMax.width)
+    (huh : 0 < a.ifmUblock.height) (huw : 0 < a.ifmUblock.width) :
+    ∃ oc, getOffsetBlockCoords ofmSize blk (f / roundUpDivide ifmSize.depth ibd) = some (some oc) ∧
+      ar.start.y = max 0 (oc.y * k.strideY - p.top) ∧
+      oc.y * k.strideY + (blk.height - 1) * k.strideY + ((k.height - 1) * k.dilationY + 1) - p.top ≤ ar.stop.y ∧
+      ar.start.x = max 0 (oc.x * k.strideX - p.left) ∧
+      oc.x * k.strideX + (blk.width - 1) * k.strideX + ((k.width - 1) * k.dilationX + 1) - p.left ≤ ar.stop.x ∧
+      ar.start.z = (f % roundUpDivide ifmSize.depth ibd) * ibd ∧ ar.stop.z = ar.start.z + ibd := by
+  unfold getFirstJobInputVolume at h
+  simp only at h
+  by_cases hd : ibd ≤ 0
+  · simp [hd] at h
+  · by_cases hdb : roundUpDivide ifmSize.depth ibd ≤ 0
+    · simp [hd, hdb] at h
+    · simp only [hd, hdb, if_false] at h
+      cases hq : getOffsetBlockCoords ofmSize blk (f / roundUpDivide ifmSize.depth ibd) with
+      | none => simp [hq] at h
+      | some o =>
+        cases o with
+        | none => simp [hq] at h
+        | some oc =>
+          simp only [hq, Option.some.injEq] at h
+          subst h
+          refine ⟨oc, rfl, ?_⟩
+          simp only [getIfmBlockSize]
+          have r1 := roundUp_ge ((blk.height - 1) * k.strideY +
+            min (↑a.ofmBlockMax.height) ((k.height - 1) * k.dilationY + 1)) a.ifmUblock.height (by exact_mod_cast huh)
+          have r2 := roundUp_ge ((blk.width - 1) * k.strideX +
+            min (↑a.ofmBlockMax.width) ((k.width - 1) * k.dilationX + 1)) a.ifmUblock.width (by exact_mod_cast huw)
+          simp only [Int.zero_add]
+          refine ⟨trivial, ?_, trivial, ?_, trivial, trivial⟩ <;> omega
+
+/-! ## witness operations (used in `Props/C04.lean`) -/
 
 def witFm (addr : Int) : FMap :=
   { region := 1, nhcwb16 := false, elemBytes := 1, shape := ⟨4, 8, 16⟩, tiles := ⟨4, 4, 8, addr, 0, 0, 0⟩, strides := none }
